@@ -30,7 +30,7 @@ ASSUMPTIONS = ["prox comparison tolerance 1e-9*max(1,|W|); rows outside the prop
 
 def generate(rng):
     cfg = sample_config(rng, families=SPARSE_FAMILIES, n_range=(3, 12), d_range=(2, 6), k_range=(2, 4), max_iter_range=(1, 4),
-                        alpha_choices=(0.0, 0.05, 0.5, 5.0, 50.0), allow_callable=False)
+                        alpha_choices=(0.0, 0.05, 0.5, 5.0, 50.0), allow_callable=False, p_big=0.12)
     ops = [{"op": "fit"}]
     if rng.random() < 0.45:
         ops.append({"op": "path", "args": {"alpha_multiplier": choice(rng, [2.0, 5.0]), "min_features": rng.randint(1, cfg["d"]),
